@@ -1,6 +1,6 @@
 (* C16 -- the generated obligation (flags of the current sources) and the refutation witnesses *)
 From Coq Require Import List Arith Bool Lia.
-From QV Require Import Model.Heap Proofs.HeapBase Proofs.HeapPure Gen.Purity.
+From QV Require Import Model.Heap Proofs.HeapBase Proofs.HeapPure Proofs.HeapFresh Proofs.HeapClosed Proofs.HeapRepeat Gen.Purity.
 Import ListNotations.
 
 (* obligation generated from the sources: every defensive copy / reset the theorems rest on is in place *)
@@ -125,4 +125,77 @@ Example result_fresh_example :
 Proof.
   do 2 eexists. split; [vm_compute; reflexivity|]. split; [vm_compute; repeat constructor|]. split; [reflexivity|].
   vm_compute. split; intros l H; inversion H; subst; repeat constructor.
+Qed.
+
+(* ---------- stage 3: the sources copy the caller's cbits, so the guard is vacuous for them ---------- *)
+Lemma src_cbits_copy : f_sim_cbits_copy src_flags = true.
+Proof. vm_compute. reflexivity. Qed.
+
+Lemma hist_guard_copy fl : f_sim_cbits_copy fl = true -> forall hist w, hist_guard fl w hist = true.
+Proof.
+  intros Hc. induction hist as [|c rest IH]; simpl; intros w; auto.
+  unfold guard. rewrite Hc. simpl. destruct (exec fl w c) as [[w1 r]|]; auto.
+Qed.
+
+Lemma guard_copy fl w c : f_sim_cbits_copy fl = true -> guard fl w c = true.
+Proof. intros Hc. unfold guard. now rewrite Hc. Qed.
+
+Lemma src_flags_fresh : flags_fresh src_flags = true.
+Proof. pose proof src_flags_ok as H. unfold flags_ok in H. apply andb_prop in H. apply H. Qed.
+
+Lemma src_flags_service : flags_service src_flags = true.
+Proof. pose proof src_flags_ok as H. unfold flags_ok in H. apply andb_prop in H. apply H. Qed.
+
+(* the theorems for the CURRENT sources, without any guard *)
+Theorem history_pure_src hist w w' rs :
+  hist_wf src_flags w hist -> run_hist src_flags w hist = Some (w', rs) ->
+  forall l, l < length (hp w) -> nth_error (hp w') l = nth_error (hp w) l.
+Proof.
+  intros Hwf E. eapply history_pure_lemma; eauto.
+  - apply src_flags_pure.
+  - apply hist_guard_copy, src_cbits_copy.
+Qed.
+
+Theorem results_unaliased_src hist w w' rs :
+  world_ok w -> hist_ok src_flags w hist -> run_hist src_flags w hist = Some (w', rs) ->
+  (forall v m, val_ok (length (hp w)) v -> reach (hp w') v m -> reach (hp w) v m /\ m < length (hp w)) /\
+  (forall r m, In r rs -> reach (hp w') r m -> length (hp w) <= m) /\
+  (forall i j ri rj m, i < j -> nth_error rs i = Some ri -> nth_error rs j = Some rj ->
+                       reach (hp w') ri m -> reach (hp w') rj m -> False).
+Proof.
+  intros Hw Hok E. eapply results_unaliased_lemma; eauto.
+  - apply src_flags_fresh.
+  - apply hist_guard_copy, src_cbits_copy.
+Qed.
+
+Theorem history_repeatable_src w c w1 r1 w2 r2 :
+  world_ok w -> call_ok w c ->
+  exec src_flags w c = Some (w1, r1) -> exec src_flags w1 c = Some (w2, r2) -> iso (hp w1) r1 (hp w2) r2.
+Proof.
+  intros Hw Hc E1 E2. eapply history_repeatable_lemma; eauto.
+  - apply src_flags_pure.
+  - apply src_flags_service.
+  - apply guard_copy, src_cbits_copy.
+Qed.
+
+(* non-vacuity of the stage-3 hypotheses *)
+Example ex_world_ok : world_ok ex_world.
+Proof.
+  split.
+  - intros l o E. do 11 (destruct l as [|l]; [inversion E; subst; repeat constructor; simpl; lia|]).
+    destruct l; discriminate.
+  - repeat constructor.
+Qed.
+
+Example ex_history_ok : hist_ok good_flags ex_world ex_history.
+Proof. vm_compute. repeat split; repeat constructor. Qed.
+
+(* reverse_circuit twice: two different objects, equal as structures *)
+Example repeat_example :
+  exists w1 r1 w2 r2, exec good_flags ex_world (CReverse (Ref 9)) = Some (w1, r1) /\
+                      exec good_flags w1 (CReverse (Ref 9)) = Some (w2, r2) /\ r1 <> r2 /\
+                      snap FUEL (hp w1) r1 = snap FUEL (hp w2) r2 /\ call_ok ex_world (CReverse (Ref 9)).
+Proof.
+  do 4 eexists. split; [vm_compute; reflexivity|]. split; [vm_compute; reflexivity|].
+  split; [discriminate|]. split; [vm_compute; reflexivity|]. simpl. lia.
 Qed.
